@@ -1,0 +1,44 @@
+//go:build verif
+
+package gtxbuf
+
+import "context"
+
+// VerifWorkingState gives the verification harness access to the unexported
+// workingState, constructed exactly as (*Buffer).kernel constructs it.
+// It adds no behaviour.
+type VerifWorkingState[S, T any] struct {
+	w workingState[S, T]
+}
+
+func VerifNewWorkingState[S, T any](
+	base S,
+	addTxFunc func(context.Context, S, T) (S, error),
+	txDeleterFunc func(context.Context, []T) func(T) bool,
+) *VerifWorkingState[S, T] {
+	return &VerifWorkingState[S, T]{
+		w: workingState[S, T]{
+			BaseState: base,
+			addTx:     addTxFunc,
+			txDeleter: txDeleterFunc,
+		},
+	}
+}
+
+func (v *VerifWorkingState[S, T]) CheckAddTx(ctx context.Context, tx T) error {
+	return v.w.CheckAddTx(ctx, tx)
+}
+
+func (v *VerifWorkingState[S, T]) Buffered(dst []T) []T {
+	return v.w.Buffered(dst)
+}
+
+func (v *VerifWorkingState[S, T]) Rebase(ctx context.Context, newBase S, applied []T) ([]T, error) {
+	r := v.w.Rebase(ctx, newBase, applied)
+	return r.Invalidated, r.Err
+}
+
+// Snapshot returns the raw fields of the working state.
+func (v *VerifWorkingState[S, T]) Snapshot() (base, cur S, isUpdated bool, txs []T) {
+	return v.w.BaseState, v.w.curState, v.w.isUpdated, v.w.Txs
+}
